@@ -519,7 +519,19 @@ impl DtlsInner {
         is_client: bool,
     ) -> Result<Bytes> {
         if record.epoch == 0 {
-            return Ok(record.payload.clone());
+            // Epoch 0 is unauthenticated. It only ever carries handshake traffic:
+            // application data is never valid there, and once keys exist an alert
+            // must arrive under them (otherwise anyone on the path could close us).
+            let have_keys = ctx.session_crypto.is_some() || ctx.session_keys.is_some();
+            match record.content_type {
+                ContentType::ApplicationData => {
+                    return Err(anyhow::anyhow!("Unprotected application data record"));
+                }
+                ContentType::Alert if have_keys => {
+                    return Err(anyhow::anyhow!("Unprotected alert after key negotiation"));
+                }
+                _ => return Ok(record.payload.clone()),
+            }
         }
 
         // Sequence number for AAD is epoch (16) + seq (48)
